@@ -69,6 +69,10 @@ T = {
     text="23 formula families (every nestable operator family; full sharing with tree size 2^n, Fibonacci sharing, chains) x 17 operations (construction with type checking, simplify, substitute, analyses, logic detection, size, nnf, prenex, aig, DAG print, print-parse). Work is the number of Python function calls counted from outside with sys.setprofile: an abort budget of 6000 x distinct nodes stops exponential traversals, a doubling test (work(2n) <= 2.6 work(n)) detects super-linear growth, and every operation must succeed on depth-20000 chains under the default recursion limit.",
     note="Work measure = Python-level calls (not wall time). Families avoid the documented flattening of nested Plus/Times/And/Or whose *result* is legitimately quadratic; only the TREE/LEAVES/DEPTH size measures are measured; finitely many sizes.",
     technique="parametrised family generation with externally counted work (sys.setprofile), abort budgets and doubling tests"),
+ "C16": dict(level="exploration", design="4/C16",
+    text="Script side: all legal command sequences up to length 4 (5 thorough) over an 18-letter alphabet (assert, assert-soft with ids and weights, push/pop 0..2, reset-assertions, check-sat, minimize/maximize, minmax) plus sampled sequences up to length 40 are given to SmtLibScript; get_last_formula(return_optimizations=True) must equal the live assertions (identity) and goals of an executable reference model of the SMT-LIB assertion stack, get_strict_formula must raise on push/pop. Solver side: all legal sequences up to length 4 (5) over a 17-letter alphabet (add_assertion, named assertion, push/pop 0..2, reset, solve with none/literal/non-literal assumptions, is_sat/is_valid/is_unsat, observe) plus sampled long ones run on a concrete IncrementalTrackingSolver whose backend rejects illegal pops: assertions, backend frames and every verdict must equal the reference.",
+    note="Trusted: the reference stack model in vf/checks/c16.py and the brute-force solver vf/brute.py (decorated like the native solvers). Only SMT-LIB-legal sequences are run.",
+    technique="model-based testing: exhaustive enumeration of short command sequences + generated long sequences against a reference model"),
 }
 
 checks, na = [], []
